@@ -45,6 +45,16 @@ def ev_pwl(xs, ys, x):
     return ys[n - 1]
 
 
+def ev_shpow(k, r, p, x):
+    d = x - r
+    acc = 1.0
+    if p >= 1:
+        acc = d
+        for _ in range(1, p):
+            acc = acc * d
+    return k * acc
+
+
 def ev_pow(k, m, c, x):
     try:
         p = math.pow(x, m)
@@ -66,6 +76,8 @@ class Fn:
             return ev_poly(self.cs, x)
         if self.kind == 'PWL':
             return ev_pwl(self.xs, self.ys, x)
+        if self.kind == 'SHPOW':
+            return ev_shpow(self.k, self.r, self.p, x)
         return ev_pow(self.k, self.m, self.c, x)
 
     def spec(self):
@@ -73,6 +85,8 @@ class Fn:
             return 'POLY %d %s' % (len(self.cs), ' '.join(f2h(c) for c in self.cs))
         if self.kind == 'PWL':
             return 'PWL %d %s %s' % (len(self.xs), ' '.join(f2h(v) for v in self.xs), ' '.join(f2h(v) for v in self.ys))
+        if self.kind == 'SHPOW':
+            return 'SHPOW %s %s %d' % (f2h(self.k), f2h(self.r), self.p)
         return 'POW %s %s %s' % (f2h(self.k), f2h(self.m), f2h(self.c))
 
     def describe(self):
@@ -88,7 +102,17 @@ class Fn:
         if self.kind == 'PWL':
             sl = [abs((self.ys[i] - self.ys[i - 1]) / (self.xs[i] - self.xs[i - 1])) for i in range(1, len(self.xs))]
             return max(sl) if sl else 0.0
+        if self.kind == 'SHPOW':
+            return abs(self.k) * self.p * max(abs(a - self.r), abs(b - self.r)) ** (self.p - 1) if self.p >= 1 else 0.0
         return None
+
+    def bracket_bound(self, a, b, w):
+        """an upper bound of min(|f lo|, f hi) over all brackets a<=lo<=hi<=b, f lo<=0<=f hi, hi-lo<=w
+        (the hypothesis of C18_findroot_converges_modulus); None when not available"""
+        if self.kind == 'SHPOW' and self.p % 2 == 1 and self.k > 0:
+            return self.k * (w / 2.0) ** self.p          # lo <= r <= hi, so the nearer end is within w/2 of r
+        L = self.lipschitz(a, b)
+        return None if L is None else L * w              # min <= f hi - f lo <= L w
 
     def scale(self, a, b):
         if self.kind == 'POLY':
@@ -96,6 +120,8 @@ class Fn:
             return sum(abs(c) * m ** k for k, c in enumerate(self.cs)) or 1.0
         if self.kind == 'PWL':
             return max([abs(y) for y in self.ys] + [1.0])
+        if self.kind == 'SHPOW':
+            return abs(self.k) * max(abs(a - self.r), abs(b - self.r), 1.0) ** self.p
         return abs(self.k) * max(abs(b), 1.0) ** max(self.m, 1.0) + abs(self.c) + 1.0
 
 
@@ -135,6 +161,15 @@ def gen_root_cases(rng, count):
     # convergence witness  2x^2-1, guess at the midpoint
     add(Fn('POLY', cs=[-1.0, 0.0, 2.0]), None, 0.5, 0.0, 1.0, 1e-2, 1e-6, 100, True, 'witness-midpoint-guess')
     add(Fn('POLY', cs=[-1.0, 0.0, 2.0]), None, 0.0, 0.0, 1.0, 1e-2, 1e-6, 100, True, 'midpoint-guess-control')
+    # monotone functions that are FLAT at the root, with their derivative: Newton converges only linearly there, so
+    # the tolerance is reached in time only because the midpoint is tried in every iteration
+    def flat(r, p, k=1.0):
+        return Fn('SHPOW', k=k, r=r, p=p), Fn('SHPOW', k=k * p, r=r, p=p - 1)
+    for (r, p, tol, n) in ((0.1, 3, 1e-9, 11), (0.9, 5, 1e-12, 9), (0.125, 3, 1e-9, 11), (0.875, 5, 1e-12, 9), (0.5, 3, 1e-9, 12)):
+        ff, dd = flat(r, p)
+        add(ff, dd, 0.0, 0.0, 1.0, tol, 1e-15, n, True, 'flat-root-fixed')
+        add(ff, dd, 1.0, 0.0, 1.0, tol, 1e-15, n, True, 'flat-root-fixed')
+        add(ff, None, 0.0, 0.0, 1.0, tol, 1e-15, n, True, 'flat-root-fixed')
     # degenerate brackets: f(a) = f(b) = 0
     add(Fn('PWL', xs=[0.0, 1.0, 2.0], ys=[0.0, 1.0, 0.0]), None, 0.5, 0.0, 2.0, 1e-3, 1e-15, 5, False, 'degenerate-tent')
     add(Fn('POLY', cs=[0.0, 1.0, -1.0]), None, 0.25, 0.0, 1.0, 1e-3, 1e-15, 5, False, 'degenerate-parabola')
@@ -152,7 +187,26 @@ def gen_root_cases(rng, count):
     add(Fn('POLY', cs=[-3.0, 4.0, 0.5]), None, 0.5, 0.0, 2.0, 1e-6, 1e-15, -3, True, 'negative-limit')
 
     while len(cases) < count:
-        fam = rng.choice(['poly-mono', 'poly-mono', 'poly-any', 'pwl-mono', 'pwl-mono', 'pwl-any', 'pow', 'poly-newton'])
+        fam = rng.choice(['poly-mono', 'poly-mono', 'poly-any', 'pwl-mono', 'pwl-mono', 'pwl-any', 'pow', 'poly-newton', 'flat-root'])
+        if fam == 'flat-root':
+            p = rng.choice([3, 3, 5, 7])
+            k = rng.choice([1.0, 1.0, 2.0, 0.5])
+            a = rng.choice([0.0, 0.0, dyadic(rng, -2, 2, 3)])
+            b = a + rng.choice([1.0, 1.0, dyadic(rng, 0.25, 4, 3)])
+            r = a + (b - a) * rng.choice([dyadic(rng, 0, 1, 4), rng.random(), 0.1, 0.9])
+            f, d = flat(r, p, k)
+            if rng.random() < 0.25:
+                d = None
+            x0 = rng.choice([a, b, a, a + (b - a) * rng.random()])
+            tol = rng.choice([1e-6, 1e-9, 1e-12])
+            conv = rng.choice([1e-15, 0.0])
+            # iteration limits around the number of halvings that reach the tolerance
+            need = 1
+            while need < 80 and not f.bracket_bound(a, b, (b - a) / 2.0 ** need) < 0.5 * tol:
+                need += 1
+            n = max(0, need + rng.choice([-3, -1, 0, 0, 1, 2, 5, 20]))
+            add(f, d, x0, a, b, tol, conv, n, True, fam)
+            continue
         if fam in ('poly-mono', 'poly-newton'):
             # c0 + c1 x + c2 x^2 + c3 x^3 with c1,c2,c3 >= 0 on [a,b], a >= 0: non-decreasing
             a = dyadic(rng, 0, 4)
@@ -296,14 +350,24 @@ def root_oracle(cs, res):
             else:
                 key = None
             fails.append(('strictly-worse-than-better-end', key, 'delta=%r best=%r tol=%r n=%d' % (delta, best, tol, n)))
-    # (5) below the tolerance whenever the iteration budget suffices for halving to reach it
-    L = f.lipschitz(a, b)
-    if L is not None and n >= 0 and tol >= 1e-11 * scale and math.isfinite(L):
-        budget = L * (b - a) / 2.0 ** n < 0.5 * tol and L * conv < 0.5 * tol
+    # (5) below the tolerance whenever the iteration budget suffices for interval halving to reach it: exactly the
+    #     hypotheses of C18_findroot_converges_modulus (n >= 1; w = max((b-a)/2^n, conv), every bracket of width <= w
+    #     has an end within the tolerance) resp. C18_findroot_converges (n = 0, Lipschitz), with a factor 2 of margin
+    #     on the tolerance for the float run
+    noise_ok = tol >= 1e-11 * scale if f.kind in ('POLY', 'PWL') else tol > 1e-300
+    wn = (b - a) / 2.0 ** max(n, 0)
+    Bn, Bc = f.bracket_bound(a, b, wn), f.bracket_bound(a, b, max(conv, 0.0))
+    if n == 0:
+        L = f.lipschitz(a, b)
+        Bn = None if L is None else L * (b - a)
+        Bc = None if L is None else L * conv
+    if Bn is not None and n >= 0 and noise_ok and math.isfinite(Bn) and conv >= 0:
+        budget = Bn < 0.5 * tol and Bc < 0.5 * tol
         if budget and not abs(delta) < tol:
             guess_ok = (x0 == a or x0 == b or abs(x0 - (a + b) / 2) >= conv + 1e-15 * max(abs(a), abs(b), 1.0))
             fails.append(('tolerance-not-reached-within-budget', None if guess_ok else 'converged-at-initial-guess',
-                          'delta=%r tol=%r L=%r n=%d conv=%r x0=%r' % (delta, tol, L, n, conv, x0)))
+                          'delta=%r tol=%r n=%d halvings give width %r, bound on the better end there %r; conv=%r x0=%r' %
+                          (delta, tol, n, wn, Bn, conv, x0)))
     return fails
 
 
@@ -406,10 +470,10 @@ def replay(path):
         print('replay file records a broken proof obligation / correspondence, not an input: %s' % obj.get('kind'))
         print(json.dumps(obj, indent=1)[:3000])
         sys.exit(1)
-    driver, _ = model_driver()
+    build_driver(['c18'])
     build_harness(['owrun'])
     li = run_impl([line])[0]
-    lm = run_lines(driver, [line], crash_token='MODELCRASH')[0]
+    lm = run_model([line])[0]
     print('case :', line)
     print('impl :', li)
     print('model:', lm)
@@ -428,61 +492,13 @@ def replay(path):
     sys.exit(1 if (fails or li != lm) else 0)
 
 
-# ---------------------------------------------------------------- building (own closure only)
-def prove_own_closure(c):
-    """Check.prove(), but `make` only Properties/C18.vo and what it depends on, so that a file of another
-    component that does not compile at the moment cannot break this property's proof check."""
-    import vlib
-    orig = vlib.coq_make
-    vlib.coq_make = lambda targets=None: orig(['Properties/C18.vo'])
-    try:
-        c.prove()
-    finally:
-        vlib.coq_make = orig
-
-
-def model_driver():
-    """the shared OCaml driver; if the shared extraction does not build (another component's kernel is
-    broken), a private driver with only the C18 functions, built under out/C18/ocaml"""
-    try:
-        build_driver(['c18'])
-        return os.path.join(OCAML, 'driver'), 'shared'
-    except BuildError as e:
-        log('shared driver does not build (%s); building a private C18 driver' % e.what)
-    d = os.path.join(OUT, 'C18', 'ocaml')
-    os.makedirs(d, exist_ok=True)
-    idents, mods = [], []
-    for l in open(os.path.join(COQ, 'Extract', 'lists', 'c18.list')):
-        t = l.split('#')[0].split()
-        if t:
-            mods.append(t[0])
-            idents += t[1:]
-    open(os.path.join(d, 'Extract.v'), 'w').write(
-        'From Coq Require Import Extraction ExtrOcamlBasic ExtrOCamlFloats ExtrOCamlInt63.\n'
-        'From OW Require Import Base.Arith Base.FInst.\n' + ''.join('From OW Require Import %s.\n' % m for m in mods) +
-        'Extraction Language OCaml.\nExtraction "model.ml" FArith ' + ' '.join(idents) + '.\n')
-    sh('coqc -Q %s OW Extract.v' % COQ, cwd=d, timeout=1200)
-    open(os.path.join(d, 'registry.ml'), 'w').write(
-        'open Model\ntype string = Stdlib.String.t\ntype char = Stdlib.Char.t\ntype int = Stdlib.Int.t\n'
-        'type kern = Float64.t arith -> Float64.t list -> Float64.t list -> Float64.t list list\n'
-        '  -> (Float64.t list list * Float64.t list) option\n' +
-        open(os.path.join(OCAML, 'registry.d', 'c18.ml')).read() +
-        'let kernels : (string * kern) list = [\n]\n'
-        'let commands : (string * (Float64.t arith -> string list -> string)) list = [\n' +
-        open(os.path.join(OCAML, 'registry.d', 'c18.commands')).read() + ']\n')
-    sh('cp %s .' % os.path.join(OCAML, 'driver.ml'), cwd=d)
-    sh('ocamlfind ocamlopt -O2 -w -a -rectypes -thread -package coq-core.kernel -linkpkg '
-       'model.mli model.ml registry.ml driver.ml -o driver', cwd=d, timeout=1200)
-    return os.path.join(d, 'driver'), 'private (C18 functions only)'
-
-
 # ---------------------------------------------------------------- main
 def main():
     for i, a in enumerate(sys.argv):
         if a == '--replay' and i + 1 < len(sys.argv):
             replay(sys.argv[i + 1])
     c = Check('C18')
-    prove_own_closure(c)
+    c.prove()
     quick = c.tier == 'quick'
     coqchk = 'not run (quick tier)'
     if not quick and not c.proof_broken:
@@ -498,7 +514,7 @@ def main():
         except BuildError as e:
             coqchk = 'failed'
             c.proof_broken = ('coqchk Properties/C18.vo', e.output[-3000:])
-    driver, driver_kind = model_driver()
+    build_driver(['c18'])
     build_harness(['owrun'])
     rng = c.rng
     rcases = gen_root_cases(rng, 1500 if quick else 40000)
@@ -506,7 +522,7 @@ def main():
     rlines = [root_line(cs) for cs in rcases]
     plines = [pw_line(cs) for cs in pcases]
     impl = run_impl(rlines + plines)
-    model = run_lines(driver, rlines + plines, crash_token='MODELCRASH')
+    model = run_model(rlines + plines)
     stats = {'root_cases': len(rcases), 'piecewise_cases': len(pcases), 'root_valid_oracle_cases': 0, 'root_monotone_cases': 0,
              'root_with_derivative': 0, 'root_returned_within_tol': 0, 'root_budget_clause_applicable': 0,
              'root_fn_evaluations_total': 0, 'root_panics_both_sides': 0, 'piecewise_errors': 0, 'piecewise_values': 0,
@@ -534,8 +550,9 @@ def main():
             stats['root_monotone_cases'] += 1
         if res[0] == 'OK' and abs(res[2]) < cs['tol']:
             stats['root_returned_within_tol'] += 1
-        L = cs['f'].lipschitz(cs['a'], cs['b'])
-        if L is not None and L * (cs['b'] - cs['a']) / 2.0 ** max(cs['n'], 0) < 0.5 * cs['tol'] and L * cs['conv'] < 0.5 * cs['tol']:
+        Bn = cs['f'].bracket_bound(cs['a'], cs['b'], (cs['b'] - cs['a']) / 2.0 ** max(cs['n'], 0))
+        Bc = cs['f'].bracket_bound(cs['a'], cs['b'], max(cs['conv'], 0.0))
+        if Bn is not None and cs['n'] >= 1 and Bn < 0.5 * cs['tol'] and Bc < 0.5 * cs['tol']:
             stats['root_budget_clause_applicable'] += 1
         for (kind, key, detail) in root_oracle(cs, res):
             rep = {'kind': kind, 'detail': detail, 'function': cs['f'].describe(), 'derivative': cs['d'].describe() if cs['d'] else None,
@@ -566,7 +583,7 @@ def main():
         if j % 211 == 0:
             c.sample({'xs': cs['xs'], 'ys': cs['ys'], 'query': repr(cs['q']), 'result': li}, limit=6)
     c.cov['rule'] = ('FindRoot: test functions evaluated identically by Go, the extracted model and this script (Horner polynomials with dyadic '
-                     'coefficients: non-decreasing cubics on [a,b] with a>=0 and three-root cubics with a sign change; piecewise-linear with kinks '
+                     'coefficients: non-decreasing cubics on [a,b] with a>=0 and three-root cubics with a sign change; k*(x-r)^p with odd p (flat at the root) with its derivative and iteration limits around the number of halvings that reach the tolerance; piecewise-linear with kinks '
                      'and flats, monotone and zig-zag; k*x^m-c through libm compared at rtol 1e-9), derivative absent / true / arbitrary, guesses at '
                      'the ends, the midpoint and inside, tolerances 0..0.5, convergence limits 0..1e-2, iteration limits 0..200, plus a fixed stream '
                      '(repo test, the Coq witnesses, degenerate f(a)=f(b)=0 brackets, wrong signs, NaN/Inf inputs, negative limit). Compared: result, value '
@@ -574,9 +591,7 @@ def main():
                      'the first trial pair). Piecewise: strictly increasing tables of length 2-12 (dyadic and random), queries at knots, inside, '
                      'midpoints, one ulp inside/outside the ends, outside, +-Inf, NaN; plus empty/single/duplicate/unsorted tables compared '
                      'model-vs-code only. Non-trivial PIECEWISE case = a value returned for a query between two knots. Distinct = distinct case lines.')
-    c.finish(extra_cov=dict(stats, exhaustive=False, coqchk=coqchk, model_driver=driver_kind,
-                            checker_cmd='cd /verif/coq && make -j16 Properties/C18.vo && coqc -Q . OW Properties/C18.v   '
-                                        '(.vo build of the closure of Properties/C18.v; coqchk -o on it in the thorough tier)'),
+    c.finish(extra_cov=dict(stats, exhaustive=False, coqchk=coqchk),
              assumptions=['theorems are over exact reals; binary64 round-off is covered only by the differential run and the oracle with the stated slacks '
                           '(1e-12 relative on table values: y0 + 1*(y1-y0) may differ from y1 by an ulp)',
                           'fn is treated as a pure function (the model calls it exactly as often and in the same order as the Go code, which is what the '
